@@ -843,6 +843,7 @@ func runPlan(r *vlib.Run, p e2ePlan, st *e2eStats) {
 		slots = append(slots, addlSlots(w)...)
 	}
 	first := true
+	misSeen := map[string]bool{}
 	for _, cl := range p.clients {
 		for _, s := range slots {
 			nk, aligned := w.keyDraws(s, cl)
@@ -878,7 +879,19 @@ func runPlan(r *vlib.Run, p e2ePlan, st *e2eStats) {
 					if aligned {
 						report(r, w, s, cl, m, append([]uint32(nil), keys...), shuf, o)
 					} else {
-						reportMisaligned(r, p, w, s, cl, m, keys, o)
+						// (one report per configuration and clause: the minimal failing set is the same for all of them)
+						var fresh []string
+						for _, kind := range o.Kinds {
+							if k := kind + "|" + s.String() + "|" + cl; !misSeen[k] {
+								misSeen[k] = true
+								fresh = append(fresh, kind)
+							}
+						}
+						if len(fresh) > 0 {
+							oo := o
+							oo.Kinds = fresh
+							reportMisaligned(r, p, w, s, cl, m, keys, oo)
+						}
 					}
 				}
 				if !shuffled && (first && st.evals == 1 || st.evals == 5000) {
